@@ -164,6 +164,8 @@ func runC07(a *A) {
 	a.Rule("flow/delivered-batch-fresh", 7, func() { a.ruleDeliveredBatchFresh() })
 	a.Rule("shape/whole-call-slice", 4, func() { a.ruleWholeCallSlice("rsql", "aggregator") })
 	a.Rule("flow/expression-argument-registered", 3, func() { a.ruleExpressionArgumentRegistered() })
+	a.Rule("tables/clause-terminators", 12, func() { a.ruleClauseTerminators() })
+	a.Rule("shape/keyword-by-substring", 2, func() { a.ruleKeywordBySubstring("rsql", "stream", "aggregator", "functions", "condition") })
 }
 
 func (a *A) ruleOrderComparator() {
@@ -676,6 +678,62 @@ func (a *A) ruleExpressionArgumentRegistered() int {
 				"the aggregate is registered together with its expression argument",
 				"the aggregate type returned by ParseAggregateTypeWithExpression is registered, the expression argument it returned is dropped: agg(x*2) would be computed as agg(x)")
 		}
+	}
+	return n
+}
+
+// keywordSubstringReviewed: strings.Contains(strings.ToUpper(text), "KEYWORD") sites whose false
+// positives (the letters inside an identifier or a literal) were read and found harmless.
+var keywordSubstringReviewed = map[string]string{
+	"rsql.ParseAggregateTypeWithExpression:AND": "only decides that a bare SELECT item is evaluated as an expression; a plain column evaluates to its own value either way",
+	"rsql.ParseAggregateTypeWithExpression:OR":  "as for AND",
+}
+
+// ruleKeywordBySubstring: deciding that a predicate or item uses an SQL keyword by looking for its
+// letters anywhere in the upper-cased text also fires on identifiers and string literals (HAVING cases
+// > 1 was routed to the CASE evaluator). Every strings.Contains(upper-cased text, "WORD") with an
+// all-letters constant is either in the reviewed table or reported.
+func (a *A) ruleKeywordBySubstring(pkgs ...string) int {
+	inPkgs := map[*ssa.Package]bool{}
+	for _, p := range pkgs {
+		inPkgs[a.Pkg(p)] = true
+	}
+	word := regexp.MustCompile(`^[A-Z]{2,}$`)
+	n := 0
+	for _, fn := range a.ModFuncs {
+		if fn.Pkg == nil || !inPkgs[fn.Pkg] {
+			continue
+		}
+		allInstrs(fn, func(in ssa.Instruction) {
+			c, ok := in.(*ssa.Call)
+			if !ok {
+				return
+			}
+			f := c.Call.StaticCallee()
+			if f == nil || f.Pkg == nil || f.Pkg.Pkg.Path() != "strings" || f.Name() != "Contains" {
+				return
+			}
+			k := constText(c.Call.Args[1])
+			if !word.MatchString(k) {
+				return
+			}
+			upper := false
+			for _, l := range phiLeaves(c.Call.Args[0]) {
+				if tc, ok := l.(*ssa.Call); ok {
+					if tf := tc.Call.StaticCallee(); tf != nil && tf.Pkg != nil && tf.Pkg.Pkg.Path() == "strings" && tf.Name() == "ToUpper" {
+						upper = true
+					}
+				}
+			}
+			if !upper {
+				return
+			}
+			n++
+			key := fname(fn) + ":" + k
+			why, reviewed := keywordSubstringReviewed[key]
+			a.Check(reviewed, key+"#keyword-by-substring", c.Pos(), "reviewed: "+why,
+				"the keyword "+k+" is detected by strings.Contains on the upper-cased text: an identifier or a string literal containing these letters takes the keyword's path")
+		})
 	}
 	return n
 }
